@@ -180,6 +180,22 @@ func c19Special() [][]interface{} {
 			}
 		}
 	}
+	// every condition function on every kind of column, with values of every shape, evaluated on a row that has the
+	// columns set (the insert comes first in the same transaction; a unique name per transaction)
+	nth := 0
+	for _, col := range []string{"n", "r", "oi", "or", "os", "name", "b", "u", "e", "ss", "si", "sr", "m", "msi", "kids", "_uuid", "nope"} {
+		for _, fn := range []string{"<", "<=", ">", ">=", "==", "!=", "includes", "excludes", "bogus"} {
+			for _, v := range []interface{}{0.0, 0.5, nil, "x", true, []interface{}{"set", []interface{}{}}, []interface{}{"set", []interface{}{0.0, 1.0}},
+				[]interface{}{"map", []interface{}{}}, []interface{}{"uuid", "x"}, []interface{}{"set", []interface{}{"x"}}} {
+				nth++
+				ins := map[string]interface{}{"op": "insert", "table": "T", "row": map[string]interface{}{
+					"name": fmt.Sprintf("cond%d", nth), "n": 3.0, "r": 1.5, "oi": 4.0, "or": 2.5, "os": "o", "b": true,
+					"ss": []interface{}{"set", []interface{}{"p", "q"}}, "si": []interface{}{"set", []interface{}{1.0, 2.0}},
+					"m": []interface{}{"map", []interface{}{[]interface{}{"k", "v"}}}}}
+				out = append(out, []interface{}{ins, map[string]interface{}{"op": "select", "table": "T", "where": []interface{}{[]interface{}{col, fn, v}}}})
+			}
+		}
+	}
 	for _, op := range []string{"insert", "select", "update", "mutate", "delete", "wait", "commit", "abort", "comment", "assert", "", "bogus"} {
 		out = append(out, []interface{}{map[string]interface{}{"op": op}})
 		out = append(out, []interface{}{map[string]interface{}{"op": op, "table": "nope"}})
